@@ -4,7 +4,7 @@
    Tier B of the correspondence compares every part of this state with the implementation after
    every operation.  NO PROOFS in this file. *)
 Require Import Coq.Lists.List Coq.NArith.NArith Coq.ZArith.ZArith Coq.Arith.Arith Coq.Bool.Bool.
-From Mustache Require Import Res.
+From Mustache Require Import Res Iter.
 Import ListNotations.
 Local Open Scope N_scope.
 
@@ -759,6 +759,73 @@ Definition flush (s : mst) : res mst :=
   Ok (set_epoch (set_bufs s1 (map (fun _ => []) (bufs s1)) (map (fun _ => []) (tmps s1))) (S (epoch s1))).
 
 (* ---------------------------------------------------------------------------------------- *)
+(* jobs: base_job.cpp (filter, version check-and-set, task split) + non_template_job.cpp          *)
+Record job := {
+  j_reqs : list (nat * bool * bool);   (* component id, is_const, is_required *)
+  j_check : mask;                      (* version_check_mask *)
+  j_last : N                           (* last_update_version_; null before the first successful run *)
+}.
+Definition job_required_mask (j : job) : mask :=
+  fold_left (fun m (r : nat * bool * bool) => let '(c, _, req) := r in mset m c req) (j_reqs j) 0.
+Definition job_update_mask (j : job) : mask :=
+  fold_left (fun m (r : nat * bool * bool) => let '(c, cst, _) := r in mset m c (negb cst)) (j_reqs j) 0.
+
+(* Archetype::makeComponentMask(mask).items(): component indices, ascending *)
+Definition comp_indices (am m : mask) : list nat :=
+  fold_right (fun c acc => match cindex am c with Some i => i :: acc | None => acc end) [] (mitems m).
+
+(* VersionStorage::checkAndSet on a row of stamps starting at base *)
+Definition check_and_set (vers : list N) (base : nat) (check set_ : list nat) (last cur : N) : list N * bool :=
+  let need := (last =? WV_NULL) || (match check with [] => true | _ => false end) ||
+              existsb (fun i => last <? nth (base + i) vers 0) check in
+  (if need then fold_left (fun v i => upd v (base + i) cur) set_ vers else vers, need).
+
+(* filterArchetype: one check-and-set per version chunk; returns the new chunk stamps and the match flags *)
+Fixpoint filter_chunks (nc : nat) (check set_ : list nat) (last cur : N) (chunk todo : nat) (cv : list N) : list N * list bool :=
+  match todo with
+  | O => (cv, [])
+  | S t =>
+    let '(cv1, m) := check_and_set cv (nc * chunk) check set_ last cur in
+    let '(cv2, ms) := filter_chunks nc check set_ last cur (S chunk) t cv1 in
+    (cv2, m :: ms)
+  end.
+
+(* apply(): every archetype in index order *)
+Definition job_filter (s : mst) (j : job) : res (mst * list farch) :=
+  let req := job_required_mask j in
+  let upm := job_update_mask j in
+  fold_res (fun (acc : mst * list farch) ai =>
+      let '(st, fas) := acc in
+      do a <- nth_res (archs st) ai;
+      let size := length (am_ents a) in
+      if negb (Nat.ltb 0 size && mmatch (am_mask a) req) then Ok acc else
+      let check := comp_indices (am_mask a) (j_check j) in
+      let set_ := comp_indices (am_mask a) upm in
+      let '(gv, need) := check_and_set (am_gver a) 0 check set_ (j_last j) (wv st) in
+      if negb need then Ok (set_arch st ai (with_vers a gv (am_cver a)), fas) else
+      match am_chunk a with
+      | O => Err DivZero
+      | cs =>
+        let nchunks := S ((size - 1) / cs) in
+        let '(cv, ms) := filter_chunks (length (am_gver a)) check set_ (j_last j) (wv st) 0 nchunks (am_cver a) in
+        let bl := filter_blocks cs size ms in
+        let cnt := blocks_count bl in
+        let st1 := set_arch st ai (with_vers a gv cv) in
+        Ok (st1, match cnt with O => fas
+                 | _ => fas ++ [{| fa_arch := ai; fa_blocks := bl; fa_count := cnt; fa_size := am_size a; fa_cap := 0 |}] end)
+      end) (seq 0 (length (archs s))) (s, []).
+
+(* what one invocation array hands to the callback: per entity its handle and, per requested component, its cell
+   (None for an optional component the archetype lacks) *)
+Definition array_visits (s : mst) (j : job) (ai start len : nat) : res (list (handle * list (option cell))) :=
+  do a <- nth_res (archs s) ai;
+  fold_res (fun acc i =>
+      do h <- nth_res (am_ents a) i;
+      let cells := map (fun (r : nat * bool * bool) => let '(c, _, _) := r in
+                        match cindex (am_mask a) c with Some ci => Some (get_cell a ci i) | None => None end) (j_reqs j) in
+      Ok (acc ++ [(h, cells)])) (seq start len) [].
+
+(* ---------------------------------------------------------------------------------------- *)
 (* operations of the driver scripts                                                          *)
 Inductive aval := ADefault | AValue (v : Z).
 
@@ -783,9 +850,11 @@ Inductive op :=
 | ODep (c : nat) (m : mask)
 | OVerChunk (n : nat)
 | OChunkFn (mn mx : nat) (m : mask)
-| OTeardown.
+| OTeardown
+| ORunJob (j : job) (parallel : bool) (tasks_override : nat) (workers : nat) (cap : nat).
 
-Inductive out := RNone | RHandle (h : handle) | RBool (b : bool) | RCell (present : bool) (v : cell) | RNullHandle.
+Inductive out := RNone | RHandle (h : handle) | RBool (b : bool) | RCell (present : bool) (v : cell) | RNullHandle
+| RJob (last : N) (arrays : list (nat * nat * list (handle * list (option cell)))).   (* task, first entity index, entities *)
 
 (* makeSharedInfo: a fresh default instance per shared type, not deduplicated *)
 Definition make_shared_info (s : mst) (sids : list nat) : res (mst * shared_info) :=
@@ -793,6 +862,21 @@ Definition make_shared_info (s : mst) (sids : list nat) : res (mst * shared_info
       let '(st, sh) := x in
       let '(st1, i) := new_inst st sid 0%Z in
       do sh' <- si_add sh sid i; Ok (st1, sh')) sids (s, si_null).
+
+
+(* lock() / unlock(): entity_manager.hpp:443-465 *)
+Definition do_lock (s : mst) : mst :=
+  match lockc s with
+  | O => set_eid (set_bufs (set_lock s 1) (resize (bufs s) (nthreads s) []) (resize (tmps s) (nthreads s) []))
+                 (N.of_nat (length (slots s)))
+  | S n => set_lock s (S (S n))
+  end.
+Definition do_unlock (s : mst) : res (mst * out) :=
+  let s1 := set_lock s (pred (lockc s)) in
+  match lockc s1 with
+  | O => do s2 <- flush s1; Ok (s2, RBool true)
+  | S _ => Ok (s1, RBool false)
+  end.
 
 Definition inc_wv (s : mst) : mst := set_wv s ((wv s + 1) mod WV_MOD) (cached s).
 
@@ -842,18 +926,8 @@ Definition step (s : mst) (o : op) : res (mst * out) :=
       do s2 <- fold_res destroy_now_unlocked (marked s1) s1; Ok (set_marked s2 [], RNone)
     | S _ => Err (Throw 2)
     end
-  | OLock =>
-    match lockc s with
-    | O => Ok (set_eid (set_bufs (set_lock s 1) (resize (bufs s) (nthreads s) []) (resize (tmps s) (nthreads s) []))
-                       (N.of_nat (length (slots s))), RNone)
-    | S n => Ok (set_lock s (S (S n)), RNone)
-    end
-  | OUnlock =>
-    let s1 := set_lock s (pred (lockc s)) in
-    match lockc s1 with
-    | O => do s2 <- flush s1; Ok (s2, RBool true)
-    | S _ => Ok (s1, RBool false)
-    end
+  | OLock => Ok (do_lock s, RNone)
+  | OUnlock => do r <- do_unlock s; Ok r
   | OAssign tid h c v typed =>
     do inf <- info_of s c;
     let with_args := match v with AValue _ => typed | ADefault => false end in
@@ -927,10 +1001,7 @@ Definition step (s : mst) (o : op) : res (mst * out) :=
       | None => Ok (s, RCell false None)
       | Some ci =>
         do ch <- chunk_at a (l_idx l);
-        do a1 <- match cached s with
-                 | Some v => vs_set_one a v ch ci
-                 | None => Err (Throw 9)          (* stamp with an indeterminate value: outside what the model tracks *)
-                 end;
+        do a1 <- vs_set_one a (wv s) ch ci;      (* EntityManager::worldVersion(): the live world version *)
         let a2 := match w with Some x => put_cell a1 ci (l_idx l) (Some x) | None => a1 end in
         Ok (set_arch s ai a2, RCell true (get_cell a2 ci (l_idx l)))
       end
@@ -944,7 +1015,7 @@ Definition step (s : mst) (o : op) : res (mst * out) :=
     | None => Ok (s, RNone)
     | Some ci =>
       do ch <- chunk_at a idx;
-      do a1 <- match cached s with Some v => vs_set_one a v ch ci | None => Err (Throw 9) end;
+      do a1 <- vs_set_one a (wv s) ch ci;
       Ok (set_arch s ai a1, RNone)
     end
   | OHas h c =>
@@ -970,4 +1041,29 @@ Definition step (s : mst) (o : op) : res (mst * out) :=
             | _ => Ok st'
             end) b st) (combine (seq 0 (length (bufs s1))) (bufs s1)) s1;
     Ok (s2, RNone)
+  | ORunJob j parallel tov workers cap =>
+    (* BaseJob::run: base_job.cpp:91-139 *)
+    do r <- job_filter s j;
+    let '(s1, fas0) := r in
+    let fas := map (fun a => {| fa_arch := fa_arch a; fa_blocks := fa_blocks a; fa_count := fa_count a; fa_size := fa_size a; fa_cap := cap |}) fas0 in
+    let total := total_count fas in
+    match total with
+    | O => Ok (s1, RJob (j_last j) [])
+    | _ =>
+      let last' := wv s1 in
+      let tasks := if parallel then Nat.max 1 (match tov with O => Nat.min total (S workers) | t => t end) else 1%nat in
+      let s2 := do_lock (inc_wv s1) in
+      do per_task <- run_arrays fas tasks;
+      do vis <- fold_res (fun (acc : nat * nat * list (nat * nat * list (handle * list (option cell)))) (arrs : list (nat * nat * nat)) =>
+                  let '(k, idx, out_) := acc in
+                  do r2 <- fold_res (fun (acc2 : nat * list (nat * nat * list (handle * list (option cell)))) (ar : nat * nat * nat) =>
+                            let '(idx2, o2) := acc2 in
+                            let '(pos, start, len) := ar in
+                            do fa <- nth_res fas pos;
+                            do es <- array_visits s2 j (fa_arch fa) start len;
+                            Ok ((idx2 + len)%nat, o2 ++ [(k, idx2, es)])) arrs (idx, out_);
+                  Ok (S k, fst r2, snd r2)) per_task (O, O, []);
+      do r3 <- do_unlock s2;
+      Ok (fst r3, RJob last' (snd vis))
+    end
   end.
